@@ -331,6 +331,9 @@ class _Sim(object):
                 self.do_execute_steps(ev, context, act)
             elif a == "autoretry":
                 self.do_autoretry(ev, element)
+            elif a == "root_level":
+                logging.getLogger().setLevel(act["level"])
+                ev["did"].append(["root_level", act["level"]])
             elif a == "advance":
                 self.clock.advance(act["dt"])
             elif a == "table_add_row":
@@ -373,6 +376,40 @@ class _Sim(object):
                     sim.cleanup_called(cid, (), {})
                 info["setup_raises"] = bool(act.get("setup_raises"))
                 use_fixture(gen_fixture, context)
+            elif kind == "fixture_nested":
+                # a generator fixture whose SETUP part registers further cleanups:
+                # its own teardown was registered first, so it must run last (LIFO)
+                from behave.fixture import use_fixture, fixture
+                inner_ids = []
+
+                @fixture
+                def inner_fixture(ctx, icid):
+                    sim.new_event("fixture_setup", cid=icid)
+                    yield icid
+                    sim.cleanup_called(icid, (), {})
+
+                @fixture
+                def outer_fixture(ctx, *a, **k):
+                    sim.new_event("fixture_setup", cid=cid)
+                    for what in act.get("inner", ["plain", "fixture"]):
+                        sim.cleanup_n += 1
+                        icid = "c%d" % sim.cleanup_n
+                        sim.cleanups[icid] = {"cid": icid, "kind": "inner-" + what, "raises": None,
+                                              "reg_seq": ev["seq"], "layer": None, "registered": True}
+                        if what == "plain":
+                            def inner_cleanup(_icid=icid):
+                                sim.cleanup_called(_icid, (), {})
+                            ctx.add_cleanup(inner_cleanup)
+                        else:
+                            use_fixture(inner_fixture, ctx, icid)
+                        ev["did"].append(["cleanup", icid, "inner-" + what, None])
+                    yield cid
+                    sim.cleanup_called(cid, (), {})
+                ev["did"].append(["cleanup", cid, kind, None])
+                info["registered"] = True
+                sim.fire("fixture_nested")
+                use_fixture(outer_fixture, context)
+                return
             elif kind == "fixture_plain":
                 from behave.fixture import use_fixture, fixture
 
